@@ -82,7 +82,7 @@ structure Consistent (ps : PState α) : Prop where
 theorem Consistent.fresh : Consistent ({} : PState α) := ⟨rfl, rfl, rfl, Nat.le_refl _⟩
 
 theorem Consistent.of_core {ps ps' : PState α} (hc : ps'.core = ps.core) (h : Consistent ps) : Consistent ps' := by
-  obtain ⟨h1, h2, h3, h4⟩ := PState.core_eq_iff.1 hc
+  obtain ⟨h1, h2, h3, h4, -⟩ := PState.core_eq_iff.1 hc
   obtain ⟨a, b, c, d⟩ := h
   constructor <;> simp only [PState.nTrials, PState.iters, PState.nextId, h1, h2, h4] at * <;> assumption
 
@@ -271,7 +271,7 @@ theorem Consistent.solveLoop_pres {p : Params α} {f : Nat → List α → Optio
     · have := hle.2 hj
       rw [c2]; omega
   rcases hcase with ⟨hst, hsr, ps', hsl, hc', -⟩ | ⟨hst, pe, e, ps', herr, hsr, hsl, hc', -⟩
-  · obtain ⟨-, h2, -, h4⟩ := PState.core_eq_iff.1 hc'
+  · obtain ⟨-, h2, -, h4, -⟩ := PState.core_eq_iff.1 hc'
     rw [hsl, hsr]
     refine ⟨hcj.of_core hc', ?_, by simp [isObjective], ?_, ?_⟩
     · simp only [h4, h2, isObjective]; omega
@@ -279,7 +279,7 @@ theorem Consistent.solveLoop_pres {p : Params α} {f : Nat → List α → Optio
       rw [this]; exact hb
     · simp only [h2]; omega
   · obtain ⟨e1, e2, -, e4, -, e5, e6⟩ := oneIteration_error_counters herr
-    obtain ⟨-, h2, -, h4⟩ := PState.core_eq_iff.1 hc'
+    obtain ⟨-, h2, -, h4, -⟩ := PState.core_eq_iff.1 hc'
     rw [hsl, hsr]
     refine ⟨(hcj.oneIteration_error herr).of_core hc', ?_, ?_, ?_, ?_⟩
     · simp only [h4, h2, e4, e5]
